@@ -365,8 +365,8 @@ def driver_class(o):
     d = o["driver"]
     if o["stage"] != "ok":
         return "none"
-    if d == "":
-        return "open"
+    if d == "" or d == "opened" or d.startswith("error:open Gtp5g"):
+        return "open"          # not executed because its inputs lead to OpenGtp5g, or executed and it got that far
     for k in ("no Gtpu config", "not found GTP address", "not support forwarder"):
         if d.startswith("error:" + k):
             return k
@@ -432,7 +432,7 @@ def evaluate(ctx, docs, outs, oracles, direct, dres, vers, vres, name):
     items = []
     for (desc, tree), o in zip(docs, outs):
         doc = "None" if tree is None else "(Some %s)" % c_yv(tree)
-        opens = "true" if (o["stage"] == "ok" and driver_class(o) == "open") or o["driver"] == "opened" else "false"
+        opens = "true" if (o["stage"] == "ok" and driver_class(o) == "open") else "false"
         io = "(IO %s %s %s %s %s)" % (cstr(o["stage"]), "true" if o["cfg_nil"] else "false", c_cfg(o["cfg"]), c_cfg(o["parsed"]), opens)
         items.append("(%s,\n %s, %s, %s, %s)" % (doc, io, cstr(driver_class(o)), cstr(o["first_addr"]), cz(o["first_mtu"])))
     body += "Definition cases : list (option yv * impl_obs * string * string * Z) := \n" + clist(items) + ".\n"
@@ -523,7 +523,7 @@ def run(ctx, replay=None):
     outs = out["docs"]
     dres = []
     for r in out["direct"]:
-        cls = "open" if r == "" else next((k for k in ("no Gtpu config", "not found GTP address", "not support forwarder")
+        cls = "open" if (r == "" or r == "opened" or r.startswith("error:open Gtp5g")) else next((k for k in ("no Gtpu config", "not found GTP address", "not support forwarder")
                                            if r.startswith("error:" + k)), "other:" + r[:60])
         dres.append(cls)
     # versions through the real checkVersion (SimKernel overlay)
